@@ -1640,3 +1640,402 @@ SKIP = {
     ("PEPO", "retag_all"): "as PEPS.retag_all",
     ("PEPS3D", "retag_all"): "as PEPS.retag_all",
 }
+
+
+# ---------------------------------------------------------------------------
+# binary operators
+# ---------------------------------------------------------------------------
+
+import operator as _op
+
+ARITH = {"+": _op.add, "-": _op.sub, "*": _op.mul, "/": _op.truediv, "**": _op.pow}
+T_OPS = ["+", "-", "*", "/", "**", "@", "&", "|", "*=", "/=", "neg"]
+TN_OPS = ["&", "|", "&=", "|=", "*", "/", "*=", "/=", "r*", "neg", "@", "^all", "^tags", ">>"]
+
+
+def dense_on(arr, inds, labels, sizes):
+    """array broadcast-ready over `labels` (size-1 axes where the label is absent)."""
+    inds = list(inds)
+    present = [l for l in labels if l in inds]
+    a = np.transpose(arr, [inds.index(l) for l in present])
+    shape = [sizes[l] if l in inds else 1 for l in labels]
+    return a.reshape(shape)
+
+
+def loose_fp(o):
+    """Fingerprint that ignores the names of inner labels (virtual combination may mangle clashing inner names of the
+    viewed operand - documented) but keeps outer labels, tags, exponent and the bytes of every array."""
+    qtn = Q()
+    if isinstance(o, qtn.TensorNetwork):
+        outer_ = set(o.outer_inds())
+        return ("TN", type(o).__name__, repr(o.exponent),
+                tuple((tid, tuple(i if i in outer_ else "*" for i in t.inds), tuple(t.tags), fp_array(t.data))
+                      for tid, t in o.tensor_map.items()))
+    return fingerprint(o)
+
+
+def build_operand_tensor(rng, inds, dtype, positive=False, tags=("B",)):
+    qtn = Q()
+    shape = [SIZES_OP[i] for i in inds]
+    data = rarr(rng, shape, dtype)
+    if positive:
+        data = (np.abs(data) + 0.5).astype(dtype)
+    return qtn.Tensor(data, inds=inds, tags=list(tags))
+
+
+SIZES_OP = {"a": 2, "b": 3, "c": 2, "d": 3, "x": 2, "y": 3}
+
+
+def tensor_operands(case):
+    rng = np.random.default_rng(case["seed"])
+    dt = case["dtype"]
+    op = case["op"]
+    ra = 1 + case["n"] % 3
+    ia = [["a", "b", "c", "d"][int(i)] for i in rng.permutation(4)[:ra]]
+    ov = case["overlap"]
+    if ov == "same":
+        ib = [ia[int(i)] for i in rng.permutation(len(ia))]
+    elif ov == "subset":
+        ib = [ia[int(i)] for i in rng.permutation(len(ia))][: max(1, len(ia) - 1)]
+    elif ov == "mixed":
+        ib = [ia[int(i)] for i in rng.permutation(len(ia))][: max(1, len(ia) - 1)] + ["x"]
+        ib = [ib[int(i)] for i in rng.permutation(len(ib))]
+    else:
+        ib = ["x", "y"][: 1 + int(rng.integers(0, 2))]
+    pos = op in ("/", "**", "/=")
+    A = build_operand_tensor(rng, ia, dt, positive=(op == "**"), tags=("A", "S"))
+    if case["rhs"] == "scalar" or op in ("*=", "/=", "neg"):
+        B = pick(rng, [2.0, 0.5, 3.0]) if op in ("**",) else pick(rng, [2.5, -0.5, 3.0])
+        if "complex" in dt and op != "**" and rng.integers(0, 2):
+            B = B * (1 + 0.5j)
+    else:
+        B = build_operand_tensor(rng, ib, dt, positive=pos, tags=("B", "S"))
+        if op == "**":
+            set_data(B, np.asarray(np.real(B.data)) if "complex" not in dt else B.data)
+    return A, B
+
+
+def s_tensor_ops(tier):
+    from .. import arrays as AR
+
+    return st.fixed_dictionaries({
+        "op": st.sampled_from(T_OPS), "rhs": st.sampled_from(["tensor", "tensor", "scalar", "rscalar"]),
+        "overlap": st.sampled_from(["same", "subset", "mixed", "disjoint"]), "seed": AR.seeds,
+        "pseed": st.integers(0, 10 ** 6), "n": st.integers(1, 6), "dtype": st.sampled_from(["float64", "complex128"]),
+        "view": st.booleans()})
+
+
+def apply_op(op, A, B, rhs):
+    if op == "neg":
+        return -A
+    if op in ARITH:
+        if rhs == "rscalar" and not is_tensor(B) and not isinstance(B, Q().TensorNetwork):
+            return ARITH[op](B, A)
+        return ARITH[op](A, B)
+    if op == "r*":
+        return B * A
+    if op == "@":
+        return A @ B
+    if op == "&":
+        return A & B
+    if op == "|":
+        return A | B
+    if op == "*=":
+        A *= B
+        return A
+    if op == "/=":
+        A /= B
+        return A
+    if op == "&=":
+        A &= B
+        return A
+    if op == "|=":
+        A |= B
+        return A
+    raise AssertionError(op)
+
+
+def run_tensor_ops(case):
+    qtn = Q()
+    op, rhs = case["op"], case["rhs"]
+    A, B = tensor_operands(case)
+    if not is_tensor(B) and op in ("@", "&", "|"):
+        raise Reject("operator needs a tensor operand")
+    if op in ("*=", "/=", "neg"):
+        rhs = "scalar"
+    info = {"op": op, "rhs": "tensor" if is_tensor(B) else rhs}
+    inplace_op = op in ("*=", "/=")
+    fA, fB = fingerprint(A), fingerprint(B)
+    keep = A.copy()
+    A0 = A.copy() if inplace_op else A
+    A0id = A0
+    r = apply_op(op, A0, B, rhs)
+    # (1) operands untouched (for the in-place spelling: the original that shares its array with the receiver)
+    d = fp_diff(fA, fingerprint(A))
+    if d:
+        raise Violation("operand-mutated", which="lhs", what=d, **info)
+    d = fp_diff(fB, fingerprint(B))
+    if d:
+        raise Violation("operand-mutated", which="rhs", what=d, **info)
+    if inplace_op and r is not A0id:
+        raise Violation("inplace-returns-other-object", **info)
+    # (2) labelled semantics against numpy
+    err = 0.0
+    sizes = dict(SIZES_OP)
+    a = np.asarray(keep.data).astype(np.complex128)
+    if op in ARITH or op in ("*=", "/=", "neg"):
+        base = {"*=": "*", "/=": "/"}.get(op, op)
+        if op == "neg":
+            labels = sorted(keep.inds)
+            ref = -dense_on(a, keep.inds, labels, sizes)
+            want_tags = set(keep.tags)
+        elif is_tensor(B):
+            labels = sorted(set(keep.inds) | set(B.inds))
+            ref = ARITH[base](dense_on(a, keep.inds, labels, sizes),
+                              dense_on(np.asarray(B.data).astype(np.complex128), B.inds, labels, sizes))
+            ref = np.broadcast_to(ref, [sizes[l] for l in labels])
+            want_tags = set(keep.tags) | set(B.tags)
+        else:
+            labels = sorted(keep.inds)
+            x = dense_on(a, keep.inds, labels, sizes)
+            ref = ARITH[base](B, x) if (rhs == "rscalar" and op in ARITH) else ARITH[base](x, B)
+            want_tags = set(keep.tags)
+        if not isinstance(r, qtn.Tensor):
+            raise Violation("op-result-kind", got=type(r).__name__, **info)
+        if sorted(r.inds) != labels:
+            raise Violation("op-labels", got=sorted(r.inds), want=labels, **info)
+        if set(r.tags) != want_tags:
+            raise Violation("op-tags", got=sorted(r.tags), want=sorted(want_tags), **info)
+        got = dense_on(np.asarray(r.data).astype(np.complex128), r.inds, labels, sizes)
+        err = rel_err(got, ref, floor=float(np.linalg.norm(ref.ravel())))
+        if not err <= EXACT64:
+            raise Violation("op-value", err=err, **info)
+    elif op == "@":
+        free = sorted(set(keep.inds) ^ set(B.inds))
+        ref = einsum_value([(a, tuple(keep.inds)), (np.asarray(B.data).astype(np.complex128), tuple(B.inds))], free)
+        if free:
+            if not isinstance(r, qtn.Tensor) or sorted(r.inds) != free:
+                raise Violation("op-labels", got=repr(getattr(r, "inds", None)), want=free, **info)
+            got = dense_on(np.asarray(r.data).astype(np.complex128), r.inds, free, sizes)
+            if set(r.tags) != set(keep.tags) | set(B.tags):
+                raise Violation("op-tags", got=sorted(r.tags), **info)
+        else:
+            got = np.asarray(r).astype(np.complex128)
+        err = rel_err(got, ref, floor=float(np.linalg.norm(a.ravel()) * np.linalg.norm(np.asarray(B.data).ravel())))
+        if not err <= EXACT64:
+            raise Violation("op-value", err=err, **info)
+    else:  # & |
+        if not isinstance(r, qtn.TensorNetwork) or r.num_tensors != 2:
+            raise Violation("op-result-kind", got=type(r).__name__, **info)
+        free = sorted(set(keep.inds) ^ set(B.inds))
+        ref = einsum_value([(a, tuple(keep.inds)), (np.asarray(B.data).astype(np.complex128), tuple(B.inds))], free)
+        lab, got, mag = obj_value(r)
+        if lab != free:
+            raise Violation("op-labels", got=lab, want=free, **info)
+        err = rel_err(got, ref, floor=mag)
+        if not err <= EXACT64:
+            raise Violation("op-value", err=err, **info)
+        if op == "|":
+            # virtual: the network views the operands
+            if not any(t is A for t in r) or not any(t is B for t in r):
+                raise Violation("virtual-combination-copied", **info)
+        else:
+            if any(t is A or t is B for t in r):
+                raise Violation("copying-combination-views", **info)
+    # (3) axis order
+    prng = np.random.default_rng([int(case["pseed"]), 2])
+    A2, B2 = tensor_operands(case)
+    A2, m1 = permute_obj(A2, prng, case["view"])
+    B2, m2 = permute_obj(B2, prng, case["view"])
+    r2 = apply_op(op, A2, B2, rhs)
+    err = max(err, compare_desc(describe(r), describe(r2), EXACT64, "axis-order", info))
+    return {"nt": bool(m1 or m2), "cls": ["op=" + op + ("" if is_tensor(B) else ":" + rhs), "overlap=" + case["overlap"]], "err": err}
+
+
+def network_operands(case):
+    qtn = Q()
+    rng = np.random.default_rng(case["seed"])
+    ca = {"n": 2 + case["n"] % 3, "geom": case["geom"], "dtype": case["dtype"]}
+    A = qtn.TensorNetwork(build_graph_tensors(ca, rng, "T{}", "k{}"))
+    A.exponent = float(case["exp"])
+    kind = case["rhs"]
+    if kind == "tensor":
+        ix = pick(rng, outer(A), 1) + ["x"]
+        B = build_operand_tensor(rng, ix, case["dtype"], tags=("B",))
+    elif kind == "network":
+        cb = {"n": 2 + (case["n"] // 3) % 2, "geom": "chain", "dtype": case["dtype"]}
+        # same inner names as A (they clash and must be mangled), outer labels partly shared with A
+        B = qtn.TensorNetwork(build_graph_tensors(cb, rng, "U{}", "k{}" if case["share"] else "m{}"))
+        if case["share"]:
+            B.reindex_({"k0": "m0"})
+        B.exponent = float(case["exp2"])
+    else:
+        B = pick(rng, [2.5, -0.5, 3.0])
+        if "complex" in case["dtype"] and rng.integers(0, 2):
+            B = B * (1 + 0.5j)
+    return A, B
+
+
+def s_network_ops(tier):
+    from .. import arrays as AR
+
+    return st.fixed_dictionaries({
+        "op": st.sampled_from(TN_OPS), "rhs": st.sampled_from(["network", "network", "tensor", "scalar"]),
+        "share": st.booleans(), "seed": AR.seeds, "pseed": st.integers(0, 10 ** 6), "n": st.integers(0, 11),
+        "geom": st.sampled_from(GEOMS), "dtype": st.sampled_from(["float64", "complex128"]),
+        "exp": st.sampled_from([0.0, 0.0, 1.0, -2.0]), "exp2": st.sampled_from([0.0, 0.5]), "view": st.booleans()})
+
+
+def run_network_ops(case):
+    qtn = Q()
+    op = case["op"]
+    A, B = network_operands(case)
+    scalar_ops = ("*", "/", "*=", "/=", "r*", "neg")
+    if op in scalar_ops:
+        if isinstance(B, (qtn.Tensor, qtn.TensorNetwork)):
+            A, B = network_operands(dict(case, rhs="scalar"))
+    elif op in ("^all", "^tags", ">>"):
+        B = None
+    elif not isinstance(B, (qtn.Tensor, qtn.TensorNetwork)):
+        A, B = network_operands(dict(case, rhs="network"))
+    if op == "@" and isinstance(B, qtn.Tensor):
+        A, B = network_operands(dict(case, rhs="network"))
+    info = {"op": op, "rhs": type(B).__name__}
+    inplace_op = op in ("&=", "|=", "*=", "/=")
+    virtual = op in ("|", "|=")
+    fA, fB = fingerprint(A), (loose_fp(B) if virtual else fingerprint(B))
+    lA, vA, mA = obj_value(A)
+    A0 = A.copy() if inplace_op else A
+    rng = np.random.default_rng([case["seed"], 3])
+    tagseq = None
+
+    def do(A_, B_):
+        if op == "^all":
+            return A_ ^ all
+        if op == "^tags":
+            a, b, _ = pick(np.random.default_rng([case["seed"], 3]), neighbours(A_))
+            return A_ ^ [a, b]
+        if op == ">>":
+            keys = site_keys(A_)
+            return A_ >> [[k] for k in keys] if False else A_ >> keys
+        return apply_op(op, A_, B_, "scalar")
+
+    r = do(A0, B)
+    d = fp_diff(fA, fingerprint(A))
+    if d:
+        raise Violation("operand-mutated", which="lhs", what=d, **info)
+    if B is not None:
+        d = fp_diff(fB, loose_fp(B) if virtual else fingerprint(B))
+        if d:
+            raise Violation("operand-mutated", which="rhs", what=d, **info)
+    if inplace_op and r is not A0:
+        raise Violation("inplace-returns-other-object", **info)
+    # denotation
+    err = 0.0
+    if op in ("&", "|", "&=", "|=", "@"):
+        if isinstance(B, qtn.Tensor):
+            lB, vB, mB = sorted(B.inds), dense_on(np.asarray(B.data).astype(np.complex128), B.inds, sorted(B.inds), SIZES_OP), float(np.linalg.norm(np.asarray(B.data).ravel()))
+        else:
+            lB, vB, mB = obj_value(B)
+        free = sorted(set(lA) ^ set(lB))
+        ref = einsum_value([(vA, tuple(lA)), (vB, tuple(lB))], free)
+        if op == "@":
+            if free:
+                raise Reject("@ leaves open labels")
+            got = np.asarray(r).astype(np.complex128)
+        else:
+            if not isinstance(r, qtn.TensorNetwork):
+                raise Violation("op-result-kind", got=type(r).__name__, **info)
+            lab, got, _ = obj_value(r)
+            if lab != free:
+                raise Violation("op-labels", got=str(lab)[:100], want=str(free)[:100], **info)
+        err = rel_err(got, ref, floor=mA * mB)
+        if not err <= EXACT64:
+            raise Violation("op-value", err=err, **info)
+    elif op in scalar_ops:
+        f = {"*": B, "*=": B, "r*": B, "/": 1 / B if B else 1, "/=": 1 / B if B else 1, "neg": -1.0}[op]
+        lab, got, _ = obj_value(r)
+        if lab != lA:
+            raise Violation("op-labels", **info)
+        err = rel_err(got, vA * f, floor=mA * abs(f))
+        if not err <= EXACT64:
+            raise Violation("op-value", err=err, **info)
+    else:
+        d_ = describe(r)
+        if d_["k"] == "num":
+            got, lab = d_["v"], []
+        else:
+            lab = [l for l, _ in d_["labels"]] if d_["k"] == "T" else d_["labels"]
+            got = d_["v"]
+        if lab != lA:
+            raise Violation("op-labels", got=str(lab)[:100], want=str(lA)[:100], **info)
+        err = rel_err(np.asarray(got).reshape(np.shape(vA)), vA, floor=mA)
+        if not err <= EXACT64:
+            raise Violation("op-value", err=err, **info)
+    # axis order
+    prng = np.random.default_rng([int(case["pseed"]), 2])
+    A2, B2 = network_operands(dict(case, rhs={"Tensor": "tensor", "TensorNetwork": "network"}.get(type(B).__name__, "scalar")))
+    A2, m1 = permute_obj(A2, prng, case["view"])
+    B2, m2 = permute_obj(B2, prng, case["view"])
+    r2 = do(A2, B2)
+    err = max(err, compare_desc(describe(r), describe(r2), EXACT64, "axis-order", info))
+    return {"nt": bool(m1 or m2), "cls": ["op=" + op + ":" + type(B).__name__], "err": err}
+
+
+# ---------------------------------------------------------------------------
+# sub-checks: one per (class, alphabetical chunk) so that the class histogram shows per-pair counts
+# ---------------------------------------------------------------------------
+
+def chunk_names(cname, letters):
+    names = [n for n in reflect()[cname] if n[0] in letters]
+    ex = [n for n in names if n in RECIPES and (cname, n) not in SKIP]
+    un = [n for n in names if n not in ex]
+    return ex, un
+
+
+def make_strategy(cname, letters):
+    def strat(tier):
+        from .. import arrays as AR
+
+        ex, _ = chunk_names(cname, letters)
+        lo, hi = (1, 4) if cname == "Tensor" else (3, 5)
+        return st.fixed_dictionaries({
+            "pair": st.sampled_from(ex).map(lambda n: [cname, n]), "seed": AR.seeds, "pseed": st.integers(0, 10 ** 6),
+            "n": st.integers(lo, hi), "geom": st.sampled_from(GEOMS), "dtype": st.sampled_from(["float64", "complex128"]),
+            "exp": st.sampled_from([0.0, 0.0, 1.0, -2.0]), "view": st.booleans()})
+    return strat
+
+
+def make_run(cname, letters):
+    def run(case):
+        out = run_pair(case)
+        _, un = chunk_names(cname, letters)
+        if un:
+            out["cls"] = out["cls"] + ["unexercised=" + ",".join(un)]
+        return out
+    return run
+
+
+def _static_pair_count(cname, letters):
+    # only used to size the budgets; falls back when quimb cannot be imported in the parent
+    try:
+        return max(1, len(chunk_names(cname, letters)[0]))
+    except Exception:
+        return 20
+
+
+SUBCHECKS = []
+for _c in CLASS_NAMES:
+    for _label, _letters in CHUNKS:
+        _n = _static_pair_count(_c, _letters)
+        SUBCHECKS.append(SubCheck(
+            f"{SHORT[_c]}.{_label}", make_run(_c, _letters), make_strategy(_c, _letters),
+            examples=(14 * _n, 14 * _n * 13), shards=(1, 4), min_accept=0.5,
+            rule=f"{_c} pairs with names starting {_label} ({_n} exercised): purity, copy isolation, spelling equivalence, "
+                 "axis-order invariance; nt: >=2 tensors (rank>=2) and a non-identity permutation"))
+SUBCHECKS.append(SubCheck("ops.tensor", run_tensor_ops, s_tensor_ops, examples=(400, 8000), shards=(1, 4),
+                          rule="Tensor operators + - * / ** @ & | *= /= unary-: operands untouched, numpy broadcasting-by-label "
+                               "oracle, axis-order invariance; nt: a non-identity permutation of an operand"))
+SUBCHECKS.append(SubCheck("ops.network", run_network_ops, s_network_ops, examples=(400, 8000), shards=(1, 4),
+                          rule="TensorNetwork operators & | &= |= * / *= /= unary- @ ^ >>: operands untouched (inner names of a "
+                               "viewed operand may be mangled), denotation oracle, axis-order invariance"))
